@@ -66,6 +66,45 @@ def ev(e, env):
         raise Undecidable("unbound attribute %s" % t)
     if isinstance(e, (ast.Tuple, ast.List)):
         return tuple(ev(x, env) for x in e.elts)
+    if isinstance(e, (ast.ListComp, ast.GeneratorExp, ast.SetComp)):
+        out = []
+        def gen(i, scope):
+            if i == len(e.generators):
+                out.append(ev(e.elt, scope))
+                return
+            g = e.generators[i]
+            for x in ev(g.iter, scope):
+                sc = dict(scope)
+                _bind(g.target, x, sc)
+                if all(ev(c, sc) for c in g.ifs):
+                    gen(i + 1, sc)
+        gen(0, env)
+        return tuple(out)
+    if isinstance(e, ast.DictComp):
+        out = {}
+        def gen(i, scope):
+            if i == len(e.generators):
+                out[ev(e.key, scope)] = ev(e.value, scope)
+                return
+            g = e.generators[i]
+            for x in ev(g.iter, scope):
+                sc = dict(scope)
+                _bind(g.target, x, sc)
+                if all(ev(c, sc) for c in g.ifs):
+                    gen(i + 1, sc)
+        gen(0, env)
+        return out
+    if isinstance(e, ast.JoinedStr):
+        parts = []
+        for v in e.values:
+            if isinstance(v, ast.Constant):
+                parts.append(str(v.value))
+            elif isinstance(v, ast.FormattedValue) and v.conversion == -1:
+                spec = ev(v.format_spec, env) if v.format_spec is not None else ""
+                parts.append(format(ev(v.value, env), spec))
+            else:
+                raise Undecidable("f-string part")
+        return "".join(parts)
     if isinstance(e, ast.Dict) and all(k is not None for k in e.keys):
         return {ev(k, env): ev(v, env) for k, v in zip(e.keys, e.values)}
     if isinstance(e, ast.Compare):
@@ -117,11 +156,13 @@ def ev(e, env):
             return base[ev(e.slice, env)]
         except (KeyError, IndexError, TypeError) as ex:
             raise Undecidable("subscript: %s" % ex)
-    if isinstance(e, ast.Call) and isinstance(e.func, ast.Name) and e.func.id in ("bool", "int", "len", "abs", "max", "min", "range", "divmod", "tuple", "list", "sum", "sorted", "reversed", "bin", "str", "hex") and not e.keywords:
+    if isinstance(e, ast.Call) and isinstance(e.func, ast.Name) and e.func.id in ("bool", "int", "len", "abs", "max", "min", "range", "divmod", "tuple", "list", "sum", "sorted", "reversed", "bin", "str", "hex", "ord", "chr") and not e.keywords:
         try:
-            return {"bool": bool, "int": int, "len": len, "abs": abs, "max": max, "min": min, "range": range, "divmod": divmod, "tuple": tuple, "list": list, "sum": sum, "sorted": sorted, "bin": bin, "str": str, "hex": hex,
+            return {"bool": bool, "int": int, "len": len, "abs": abs, "max": max, "min": min, "range": range, "divmod": divmod, "tuple": tuple, "list": list, "sum": sum, "sorted": sorted, "bin": bin, "str": str, "hex": hex, "ord": ord, "chr": chr,
                     "reversed": lambda x: tuple(reversed(x))}[e.func.id](*[ev(a, env) for a in e.args])
-        except (ZeroDivisionError, ValueError, TypeError) as ex:
+        except (ZeroDivisionError, ValueError) as ex:
+            raise Rejected("%s: %s" % (e.func.id, ex))
+        except TypeError as ex:
             raise Undecidable("builtin %s: %s" % (e.func.id, ex))
     if isinstance(e, ast.Call) and isinstance(e.func, ast.Name) and e.func.id in env.get("__funcs__", {}) and not e.keywords:
         # a call to another pure helper of the same module
@@ -142,15 +183,31 @@ def ev(e, env):
             return call(env["__methods__"][e.func.attr], args, sub)
         path = "self.%s(%s)" % (e.func.attr, ", ".join(a.path if isinstance(a, Sym) else repr(a) for a in args))
         return env["__paths__"][path] if path in env["__paths__"] else Sym(path)
-    if isinstance(e, ast.Call) and isinstance(e.func, ast.Attribute) and e.func.attr in ("replace", "startswith", "endswith", "lower", "upper", "split", "count", "lstrip", "rstrip", "strip", "zfill") and not e.keywords:
+    if isinstance(e, ast.Call) and isinstance(e.func, ast.Attribute) and e.func.attr in ("replace", "startswith", "endswith", "lower", "upper", "split", "count", "lstrip", "rstrip", "strip", "zfill", "join", "index", "find") and not e.keywords:
         v = ev(e.func.value, env)
         if isinstance(v, str):
-            return getattr(v, e.func.attr)(*[ev(a, env) for a in e.args])
+            try:
+                return getattr(v, e.func.attr)(*[ev(a, env) for a in e.args])
+            except ValueError as ex:
+                raise Rejected(str(ex))
     if isinstance(e, ast.Call) and isinstance(e.func, ast.Attribute) and e.func.attr == "bit_length" and not e.args:
         v = ev(e.func.value, env)
         if isinstance(v, int):
             return v.bit_length()
     raise Undecidable("expression %s" % _text(e)[:40])
+
+
+def _bind(target, value, env):
+    if isinstance(target, ast.Name):
+        env[target.id] = value
+    elif isinstance(target, (ast.Tuple, ast.List)):
+        vs = tuple(value)
+        if len(vs) != len(target.elts):
+            raise Undecidable("unpack")
+        for t, v in zip(target.elts, vs):
+            _bind(t, v, env)
+    else:
+        raise Undecidable("binding target")
 
 
 class _Return(Exception):
@@ -195,10 +252,16 @@ def _exec(stmts, env):
         if isinstance(st, ast.AugAssign) and isinstance(st.target, ast.Name) and type(st.op) in _BIN:
             env[st.target.id] = _BIN[type(st.op)](ev(st.target, env), ev(st.value, env))
             continue
-        if isinstance(st, ast.For) and isinstance(st.target, ast.Name) and not st.orelse:
+        if isinstance(st, ast.For) and not st.orelse:
             for x in ev(st.iter, env):
-                env[st.target.id] = x
+                _bind(st.target, x, env)
                 _exec(st.body, env)
+            continue
+        if isinstance(st, ast.Expr) and isinstance(st.value, ast.Call) and isinstance(st.value.func, ast.Attribute) and st.value.func.attr in ("append", "extend") \
+                and isinstance(st.value.func.value, ast.Name) and isinstance(env.get(st.value.func.value.id), tuple) and len(st.value.args) == 1:
+            # a local list (lists are modelled as tuples) grows
+            v = ev(st.value.args[0], env)
+            env[st.value.func.value.id] = env[st.value.func.value.id] + ((v,) if st.value.func.attr == "append" else tuple(v))
             continue
         if isinstance(st, ast.While):
             n = 0
@@ -209,6 +272,26 @@ def _exec(stmts, env):
                     raise Undecidable("loop does not terminate on the finite domain")
             continue
         raise Undecidable("statement %s" % type(st).__name__)
+
+
+STDLIB_CONSTANTS = {"string.hexdigits": "0123456789abcdefABCDEF", "string.digits": "0123456789", "string.octdigits": "01234567",
+                    "string.ascii_lowercase": "abcdefghijklmnopqrstuvwxyz", "string.ascii_uppercase": "ABCDEFGHIJKLMNOPQRSTUVWXYZ"}
+
+
+def module_env(tree):
+    """environment for helpers of a module: its top-level functions and those of its top-level constants that evaluate"""
+    glob = dict(STDLIB_CONSTANTS)
+    funcs = {f.name: f for f in tree.body if isinstance(f, ast.FunctionDef)}
+    for st in tree.body:
+        if isinstance(st, ast.Assign) and len(st.targets) == 1 and isinstance(st.targets[0], ast.Name):
+            try:
+                glob[st.targets[0].id] = ev(st.value, glob)
+            except Undecidable:
+                pass
+    env = dict(glob)
+    env["__funcs__"] = funcs
+    env["__globals__"] = glob
+    return env
 
 
 def call(fn, args, env=None):
